@@ -86,6 +86,8 @@ BlockFill(p, h, n) ==
    p |-> p + ((n + WB - 1) \div WB),
    h |-> 0]
 
+(* the alternative for the open corner: discard the pending half, take the tail from the low half of a fresh word *)
+FillFresh(p, n) == LET r == U32(p, 0) IN [o |-> Take(r.o, n), p |-> r.p, h |-> r.h]
 Fill(p, h, n) == IF Class \in {"b32", "b64"} THEN BlockFill(p, h, n) ELSE ViaFill(p, h, n)
 
 (* ---- the specification ---- *)
@@ -96,6 +98,11 @@ SFill(n) == \/ Apply(Fill(pos, pend, n))
             \* fill_bytes(0) touches no word: whether a pending half survives it is
             \* left open by the property ("an immediately following next_u32")
             \/ n = 0 /\ pend = 1 /\ pos' = pos /\ out' = <<>> /\ pend' \in {0, 1}
+            \* JitterRng, 1..4 bytes with a half pending: this property words fill_bytes as "one next_u32
+            \* truncated to the tail" (which hands out the pending half), C16 says fill_bytes discards a
+            \* pending half and collects afresh; the corner is left open - both are projections of the
+            \* one forward stream
+            \/ Class = "half" /\ pend = 1 /\ n \in 1..4 /\ Apply(FillFresh(pos, n))
 
 SInit == pos = 0 /\ pend = 0 /\ out = <<>>
 SNext == SNextU32 \/ SNextU64 \/ \E n \in Fills : SFill(n)
